@@ -2,6 +2,7 @@ from __future__ import annotations
 
 import re
 from decimal import Decimal
+from fractions import Fraction
 from typing import Protocol, Any
 
 from . import isoduration
@@ -147,6 +148,10 @@ class TimestampConverter(NullConverter):
 
     @staticmethod
     def to_xml(py_value) -> str:
+        if isinstance(py_value, Decimal):
+            # exact integer arithmetic: Decimal * 1000 is rounded to the precision of the decimal context of the calling thread
+            numerator, denominator = py_value.as_integer_ratio()
+            return str(round(Fraction(numerator * 1000, denominator)))
         # round to nearest: int() would truncate, and to_py(n) * 1000 can be slightly smaller than n
         return str(round(py_value * 1000))
 
